@@ -19,7 +19,7 @@ def conc(t):
     if k == "bnode":
         return BNode(t["v"])
     if k == "var":
-        return Variable(t["v"])
+        return Variable("?" + t["v"])       # (the constructor drops one leading "?": the variable named t["v"], whatever it starts with)
     if t.get("lang_raw"):
         return Literal(t["v"], lang=t["lang_raw"])
     if t.get("dt"):
